@@ -13,7 +13,7 @@ func init() {
 		ID:        "C37",
 		Roots:     []string{"interfaces/prompting/patterns"},
 		Technique: "guarded-sink reachability on PathPattern.parse and parseAlt; loop accumulation-must-be-bounded rule (SSA) on every renderNode.NumVariants implementation; who-may-write of PathPattern.renderTree",
-		Explanation: "Structural necessary conditions for 'the number of expansions never exceeds the limit; invalid patterns are rejected' (matching/precedence are not decided): (R1) PathPattern.parse accepts (stores original/renderTree) only across ok(scan), ok(parse) and NumVariants(tree) <= maxExpandedPatterns for the very tree it stores, and parseAlt descends only below the nesting limit; (R2) the number compared with the limit cannot wrap: in every renderNode.NumVariants implementation an integer accumulation of children's NumVariants() results inside a loop is bounded by a comparison on the accumulator, the factor or the result on every path that performs it and then continues; every renderNode implementation is one of the reviewed ones; (R3) NumVariants and RenderAllVariants read the same renderTree, which is written only by parse.",
+		Explanation: "Structural necessary conditions for 'the number of expansions never exceeds the limit; invalid patterns are rejected' (matching/precedence are not decided): (R1) PathPattern.parse accepts (stores original/renderTree) only across ok(scan), ok(parse) and NumVariants(tree) <= maxExpandedPatterns for the very tree it stores, and parseAlt descends only below the nesting limit; (R2) the number compared with the limit cannot wrap: in every renderNode.NumVariants implementation an integer accumulation of children's NumVariants() results inside a loop is bounded by a comparison on the accumulator, the factor or the result on every path that performs it and then continues; every renderNode implementation is one of the reviewed ones; (R3) NumVariants and RenderAllVariants read the same renderTree, which is written only by parse; (R4) a render node is equal only to a node of its own kind (so alt.optimize never drops an alternative as a duplicate of a differently shaped one), and HighestPrecedencePattern compares every candidate with no early exit.",
 		NotDecided: "that matching a path equals matching one of the expansions; that precedence is order-independent; the doublestar library; exactness of the count below the limit.",
 		Run:        runC37,
 	})
@@ -142,6 +142,50 @@ func runC37(c *Ctx) {
 		if k == 0 {
 			c.Holds(fmt.Sprintf("%s.%s.NumVariants#no-accumulation", pkg, tn.Name()), fn.Pos(), "no arithmetic on children's counts")
 		}
+	}
+
+	c.Rule("C37-R4", "G+L", "render nodes are equal only to nodes of their own kind (alt.optimize drops duplicates by nodeEqual); HighestPrecedencePattern compares every candidate (no early exit)", 3)
+	for _, tn := range implementers(P.Pkgs[pkg].Types, iface) {
+		fn := P.TryFunc(pkg + "." + tn.Name() + ".nodeEqual")
+		if fn == nil {
+			fn = P.TryFunc(pkg + ".(*" + tn.Name() + ").nodeEqual")
+		}
+		if fn == nil {
+			c.Undecided(pkg+"."+tn.Name()+".nodeEqual", tn.Pos(), "nodeEqual method body not found")
+			continue
+		}
+		c.touch(fn)
+		sameKind := TypeIs("other.("+tn.Name()+")", VParam(fn, 1), tn.Type())
+		k := 0
+		for _, lf := range ReturnLeaves(fn, 0) {
+			if v, ok := ConstBool(lf.Val); ok && !v {
+				continue
+			}
+			k++
+			c.GuardedFlow(fmt.Sprintf("%s.%s.nodeEqual#equal<=same-kind#%d", pkg, tn.Name(), k), fn, lf, []Clause{{sameKind}}, nil)
+		}
+		if k == 0 {
+			c.Undecided(pkg+"."+tn.Name()+".nodeEqual#equal-result", fn.Pos(), "no non-false result found")
+		}
+	}
+	hpp := P.Func(pkg + ".HighestPrecedencePattern")
+	c.touch(hpp)
+	nl := 0
+	for _, rl := range RangeLoops(hpp) {
+		nl++
+		q := ReachQ{Fn: hpp, From: &Loc{rl.Body, -1}, CutEdge: func(b *ssa.BasicBlock, s int) bool { return b == rl.Header },
+			SinkEdge: func(b *ssa.BasicBlock, s int) bool { return b != rl.Header && b.Succs[s] == rl.Done }}
+		r := q.Run()
+		c.Check(!r.Found, fmt.Sprintf("%s.HighestPrecedencePattern#compares-every-candidate#%d", pkg, nl), rl.Body.Instrs[0].Pos(), "the scan over the candidates is never cut short", "HighestPrecedencePattern can stop before comparing every candidate: the winner then depends on the order of the patterns: "+P.PathString(r.Path))
+		// a success return inside the loop would also be an early exit
+		for _, rt := range ReturnsOf(hpp) {
+			if rl.Body.Dominates(rt.Block()) && IsNilConst(rt.Results[len(rt.Results)-1]) {
+				c.Violated(fmt.Sprintf("%s.HighestPrecedencePattern#early-success#%d", pkg, nl), rt.Pos(), "HighestPrecedencePattern returns a winner from inside the loop, before the remaining candidates were compared")
+			}
+		}
+	}
+	if nl == 0 {
+		c.Undecided(pkg+".HighestPrecedencePattern#loop", hpp.Pos(), "the loop over the candidates was not found")
 	}
 
 	c.Rule("C37-R3", "W", "NumVariants and RenderAllVariants read the renderTree that parse stored; nobody else writes it", 3)
